@@ -1,5 +1,5 @@
 """C18 - stateless API: no history, aliasing or thread interference."""
-import json, copy, threading, random as pyrandom
+import json, copy, hashlib, threading, random as pyrandom
 from harness import fw, impl, authsim, authcat, authrun, regsim, regcat, regrun, oracle
 
 TRUSTED = [
@@ -77,6 +77,18 @@ def build_pool(rng, quick):
     for fmt, v in V.items():
         for variant, dt in (("ok", 0), ("expired", 400 * regsim.DAY)):
             pool.append((f"real/{fmt}/{variant}", "reg", impl.RegPolicy(bytes.fromhex(v["challenge"]), v["rp_id"], v["origin"], now=v["now"] + dt), RealCred(v["credential"])))
+    # responses whose CBOR uses shareable values / shared references (tags 28, 29): state inside a decoder must not link one call to another
+    import cbor2
+    cdj_n = authsim.client_data("webauthn.create", b"\x01\x02challenge", "https://example.com")
+    def none_reg(authdata_tail):
+        ad = hashlib.sha256(b"example.com").digest() + b"\x41" + b"\x00\x00\x00\x05" + bytes(16) + b"\x00\x04" + b"cid1" + authdata_tail
+        ao = cbor2.dumps({"fmt": "none", "attStmt": {}, "authData": ad})
+        return regsim.Registration(authsim.Cred("ES256-P256"), b"cid1", cdj_n, ao)
+    kx = authsim.Cred("ES256-P256").cose
+    pol_n = impl.RegPolicy(b"\x01\x02challenge", "example.com", "https://example.com")
+    pool.append(("reg/cbor-shareable-x-coordinate", "reg", pol_n, none_reg(b"\xa5\x01\x02\x03\x26\x20\x01\x21\xd8\x1c\x58\x20" + kx[-2] + b"\x22\xd8\x1c\x58\x20" + kx[-3])))
+    pool.append(("reg/cbor-dangling-shared-references", "reg", pol_n, none_reg(b"\xa5\x01\x02\x03\x26\x20\x01\x21\xd8\x1d\x00\x22\xd8\x1d\x01")))
+    pool.append(("reg/cbor-key-is-a-shared-reference", "reg", pol_n, none_reg(b"\xd8\x1d\x00")))
     # credential RECORDS whose binary fields are memoryviews, the same objects presented again and again
     from webauthn.helpers.structs import AuthenticationCredential, AuthenticatorAssertionResponse, RegistrationCredential, AuthenticatorAttestationResponse
     s = authcat.Scn("ES256-P256")
@@ -116,13 +128,20 @@ def run_spec(spec, O=None, R=None):
     elif kind == "reg":
         cred = obj.as_dict()
         kw = pol.kwargs()
+        if kw.get("pem_root_certs_bytes_by_fmt") is not None and len(key) % 2:
+            # mapping types an RP may well use: the mapping must be left alone whatever its type
+            import collections
+            m = collections.defaultdict(list)
+            m.update(kw["pem_root_certs_bytes_by_fmt"])
+            kw["pem_root_certs_bytes_by_fmt"] = m
         before = deep((cred, kw))
+        before_keys = None if kw.get("pem_root_certs_bytes_by_fmt") is None else sorted(map(str, kw["pem_root_certs_bytes_by_fmt"].keys()))
         try:
             res = webauthn.verify_registration_response(credential=cred, **kw)
             out = "OK " + impl.pr_verified_reg(res)
         except Exception as e:
             out = "ERR " + fw.classify_exc(e)
-        if (cred, kw) != before:
+        if (cred, kw) != before or (before_keys is not None and sorted(map(str, kw["pem_root_certs_bytes_by_fmt"].keys())) != before_keys):
             viol.append("verify_registration_response modified the expectations / allowed algorithms / trust-anchor mapping it was passed")
     elif kind in ("auth-mv", "reg-mv"):
         kw = pol.kwargs()
